@@ -35,7 +35,7 @@ pub struct Case {
 fn rec_strategy(rotation: bool) -> BoxedStrategy<Rec> {
     let dt = select(vec![1u64, 1, 2, 7]);
     let base = prop_oneof![
-        8 => (select(vec![1u64, 2]), select(vec![10u64, 11, 12]), any::<bool>(), dt.clone()).prop_map(|(db, key, remove, dt)| Rec::Key { db, key, remove, dt }),
+        8 => (select(vec![1u64, 2]), select(vec![10u64, 11, 1, 2]), any::<bool>(), dt.clone()).prop_map(|(db, key, remove, dt)| Rec::Key { db, key, remove, dt }),
         1 => (select(vec![1u64, 2]), dt.clone()).prop_map(|(db, dt)| Rec::CreateDb { db, dt }),
         2 => (select(vec![vec![1u64], vec![2], vec![1, 2], vec![2, 1]]), dt.clone()).prop_map(|(dbs, dt)| Rec::Snapshot { dbs, dt }),
     ];
@@ -147,14 +147,17 @@ fn check_queries(dir: &str, extra: &[u64], flags: &mut Flags) -> Option<(String,
     let has_equal = log.windows(2).any(|w| w[0].ts == w[1].ts);
     for since in sinces {
         // the reference: a linear scan
-        let mut want: BTreeMap<(u64, u64), u8> = BTreeMap::new();
+        // one slot per (database, key) for key operations, one per database for its create-db and one for its snapshot
+        // records (those carry the fixed key ids 1 and 2, which real keys have as well: key ids are handed out from 0)
+        let class = |kind: u8| -> u8 { if kind <= 1 { 0 } else { kind } };
+        let mut want: BTreeMap<(u64, u64, u8), u8> = BTreeMap::new();
         for r in log.iter() {
             if r.ts >= since {
-                want.insert((r.db, r.key), 0);
+                want.insert((r.db, r.key, class(r.kind)), 0);
             }
         }
         for (k, v) in want.iter_mut() {
-            *v = log.iter().rev().find(|r| (r.db, r.key) == *k).unwrap().kind;
+            *v = log.iter().rev().find(|r| (r.db, r.key, class(r.kind)) == *k).unwrap().kind;
         }
         if since > first && since <= last && log.len() >= 3 {
             flags.inside = true;
@@ -174,9 +177,16 @@ fn check_queries(dir: &str, extra: &[u64], flags: &mut Flags) -> Option<(String,
         } else {
             "since-between"
         };
-        for ((db, key), kind) in want.iter() {
-            match got.get(&format!("{}_{}", db, key)) {
+        for ((db, key, cls), kind) in want.iter() {
+            // (whatever the map's own keys are: the entry is found by what it describes)
+            match got.values().find(|rec| rec.db == *db && rec.key == *key && class(kind_of(&rec.opp)) == *cls) {
                 None => {
+                    if got.values().any(|rec| rec.db == *db && rec.key == *key) {
+                        return Some((
+                            format!("C12|missing|shadowed-by-a-record-of-another-kind-with-the-same-ids|{}", files_cls),
+                            format!("since={}: (db {}, key id {}) has a {} record at/after since, but the only entry returned for these ids is {:?}; log={:?}", since, db, key, if *cls == 0 { "key" } else if *cls == 2 { "create-db" } else { "snapshot" }, got.values().filter(|rec| rec.db == *db && rec.key == *key).map(|rec| kind_of(&rec.opp)).collect::<Vec<_>>(), log.iter().map(|r| (r.ts, r.db, r.key, r.kind)).collect::<Vec<_>>()),
+                        ));
+                    }
                     let at_equal = log.windows(2).any(|w| w[0].ts == w[1].ts && (w[0].ts == since || w[1].ts >= since) && ((w[0].db, w[0].key) == (*db, *key) || (w[1].db, w[1].key) == (*db, *key)));
                     return Some((
                         format!("C12|missing|{}|{}|{}", files_cls, since_cls, if has_equal && at_equal { "equal-timestamps" } else { "distinct-timestamps" }),
@@ -218,6 +228,8 @@ pub fn run_case(ctx: &Ctx, case: &Case) -> Outcome {
     let mut soft_fail: Option<(String, String)> = None;
     // a node needed only for declutter
     let mut node: Option<crate::node::Node> = None;
+    // what the harness asked the writer to append, in order
+    let mut written: Vec<(u64, u64, u64, u8)> = vec![];
     'outer: for rec in case.recs.iter() {
         let mut writes: Vec<(u64, u64, u8)> = vec![];
         match rec {
@@ -270,6 +282,24 @@ pub fn run_case(ctx: &Ctx, case: &Case) -> Outcome {
                 fail = Some(("C12|write-refused".to_string(), format!("try_write_op_log refused: {:?}", r)));
                 break 'outer;
             }
+            written.push((ts, db, key, kind_of(&ReplicateOpp::from(kind))));
+        }
+    }
+    if fail.is_none() {
+        // the files hold exactly what was appended: the same records in the same order (the record that crosses the
+        // size limit is written at the end of the old file and again at the start of the new one; a declutter drops
+        // whole old files, so then the files hold a suffix)
+        let (log, nfiles) = scan_all(&dir);
+        let mut on_disk: Vec<(u64, u64, u64, u8)> = log.iter().map(|r| (r.ts, r.db, r.key, r.kind)).collect();
+        on_disk.dedup();
+        let files_cls = if nfiles > 1 { "rotated-files" } else { "one-file" };
+        let ok = if flags.declutters == 0 { on_disk == written } else { written.ends_with(&on_disk) };
+        if !ok {
+            let first_bad = on_disk.iter().enumerate().find(|(i, r)| {
+                let off = written.len() as i64 - on_disk.len() as i64 + *i as i64;
+                off < 0 || written.get(off as usize) != Some(*r)
+            });
+            fail = Some((format!("C12|files-differ-from-what-was-appended|{}", files_cls), format!("{} records appended, {} distinct consecutive records in {} file(s); first record on disk that is not the appended one (index, (ts, db id, key id, kind)): {:?}; appended tail {:?}", written.len(), on_disk.len(), nfiles, first_bad, written.iter().rev().take(6).collect::<Vec<_>>())));
         }
     }
     if fail.is_none() {
@@ -302,7 +332,7 @@ fn small_alphabet() -> Vec<Rec> {
     vec![
         Rec::Key { db: 1, key: 10, remove: false, dt: 1 },
         Rec::Key { db: 1, key: 10, remove: true, dt: 1 },
-        Rec::Key { db: 1, key: 11, remove: false, dt: 2 },
+        Rec::Key { db: 1, key: 2, remove: false, dt: 2 },
         Rec::Key { db: 2, key: 10, remove: false, dt: 1 },
         Rec::CreateDb { db: 2, dt: 1 },
         Rec::Snapshot { dbs: vec![1, 2], dt: 1 },
